@@ -200,14 +200,14 @@ Proof.
   unfold real_buf. now rewrite map_seq_length.
 Qed.
 
-(** fft_inv_into reads max_n without growing the object first: both objects must already be large enough *)
-Lemma fft_inv_into_indep_le K K' (s s' : st) m (v : list C) dest :
-  good K s -> good K' s' -> 2 <= K -> K <= K' -> length v = 2 ^ m -> m <= K ->
-  snd (fft_inv_into ops tw s v dest) = snd (fft_inv_into ops tw s' v dest).
+(** the body of fft_inv_into below its update_n reads max_n and the table: the same result on any two
+    objects that are both at least as large as the input *)
+Lemma fft_inv_body_indep_le K K' (s s' : st) j (v : list C) dest :
+  good K s -> good K' s' -> 2 <= K -> K <= K' -> length v = 2 ^ S j -> S j <= K ->
+  snd (fft_inv_body ops tw s v dest) = snd (fft_inv_body ops tw s' v dest).
 Proof.
-  intros Hg Hg' H2 HK Hv Hm. unfold fft_inv_into. destruct (length v =? 1) eqn:E1; [reflexivity|].
+  intros Hg Hg' H2 HK Hv Hm. unfold fft_inv_body.
   rewrite (good_len_R ops tw _ _ Hg), (good_len_R ops tw _ _ Hg'), Hv.
-  destruct m as [|j]; [rewrite Hv in E1; discriminate|].
   assert (Hmap : map (fun i => cscale ops (csub ops (cadd ops (nth i v czero) (nth (i + 2 ^ S j / 2) v czero))
                      (cmul ops (csub ops (nth i v czero) (nth (i + 2 ^ S j / 2) v czero))
                         (nth (2 ^ K - Nat.shiftr (2 ^ K) 2 - 2 ^ K / 2 ^ S j * i) (W s) czero))) (fdiv ops (fone ops) (of_Z ops 2)))
@@ -225,13 +225,45 @@ Proof.
   rewrite (fft_internal_indep_le K K' s s' j buf true Hg Hg' HK Hb). reflexivity.
 Qed.
 
-Lemma fft_inv_into_indep K K' (s s' : st) m (v : list C) dest :
-  good K s -> good K' s' -> 2 <= K -> 2 <= K' -> length v = 2 ^ m -> m <= K -> m <= K' ->
-  snd (fft_inv_into ops tw s v dest) = snd (fft_inv_into ops tw s' v dest).
+Lemma fft_inv_body_indep K K' (s s' : st) j (v : list C) dest :
+  good K s -> good K' s' -> 2 <= K -> 2 <= K' -> length v = 2 ^ S j -> S j <= K -> S j <= K' ->
+  snd (fft_inv_body ops tw s v dest) = snd (fft_inv_body ops tw s' v dest).
 Proof.
   intros Hg Hg' H2 H2' Hv Hm Hm'. destruct (Nat.le_ge_cases K K') as [H|H].
-  - now apply (fft_inv_into_indep_le K K' s s' m).
-  - symmetry. now apply (fft_inv_into_indep_le K' K s' s m).
+  - now apply (fft_inv_body_indep_le K K' s s' j).
+  - symmetry. now apply (fft_inv_body_indep_le K' K s' s j).
+Qed.
+
+(** the code before /repo 23bca24 read max_n WITHOUT growing the object first: there both objects had to be
+    large enough already (and the statement is false without that, see Examples.v) *)
+Lemma fft_inv_into_old_indep K K' (s s' : st) m (v : list C) dest :
+  good K s -> good K' s' -> 2 <= K -> 2 <= K' -> length v = 2 ^ m -> m <= K -> m <= K' ->
+  snd (fft_inv_into_old ops tw s v dest) = snd (fft_inv_into_old ops tw s' v dest).
+Proof.
+  intros Hg Hg' H2 H2' Hv Hm Hm'. unfold fft_inv_into_old. destruct (length v =? 1) eqn:E1; [reflexivity|].
+  destruct m as [|j]; [rewrite Hv in E1; discriminate|].
+  now apply (fft_inv_body_indep K K' s s' j).
+Qed.
+
+(** the repaired code grows the object to the size of the spectrum first: no size hypothesis is left *)
+Lemma fft_inv_into_good (s : st) (v : list C) dest K j : good K s -> length v = 2 ^ S j ->
+  fft_inv_into ops tw s v dest = fft_inv_body ops tw (update_n ops tw s (2 ^ S j)) v dest /\
+  good (Nat.max K (S j)) (update_n ops tw s (2 ^ S j)).
+Proof.
+  intros Hg Hv. split; [|now apply update_n_good]. unfold fft_inv_into. rewrite Hv.
+  destruct (2 ^ S j =? 1) eqn:E1; [|reflexivity].
+  apply Nat.eqb_eq in E1. rewrite Nat.pow_succ_r' in E1. pose proof (pow2_pos j). lia.
+Qed.
+
+Lemma fft_inv_into_indep (s s' : st) m (v : list C) dest : reach ops tw s -> reach ops tw s' -> length v = 2 ^ m ->
+  snd (fft_inv_into ops tw s v dest) = snd (fft_inv_into ops tw s' v dest).
+Proof.
+  intros Hr Hr' Hv. destruct m as [|j].
+  - unfold fft_inv_into. rewrite Hv. reflexivity.
+  - destruct (reach_good ops tw s Hr) as (K & H2 & Hg). destruct (reach_good ops tw s' Hr') as (K' & H2' & Hg').
+    destruct (fft_inv_into_good s v dest K j Hg Hv) as (-> & Hg1).
+    destruct (fft_inv_into_good s' v dest K' j Hg' Hv) as (-> & Hg1').
+    apply (fft_inv_body_indep _ _ _ _ j v dest Hg1 Hg1'); try assumption; lia.
 Qed.
 
 (** every call leaves the object in a reachable state *)
@@ -268,10 +300,42 @@ Lemma fft_inv_into_reach (s : st) (v : list C) dest m : reach ops tw s -> length
 Proof.
   intros Hr Hv. unfold fft_inv_into. destruct (length v =? 1) eqn:E1; [exact Hr|].
   destruct m as [|j]; [rewrite Hv in E1; discriminate|].
-  set (buf := map _ (seq 0 (length v / 2))).
+  unfold fft_inv_body. set (buf := map _ (seq 0 (length v / 2))).
   assert (Hb : @length (@C F) buf = 2 ^ j).
   { unfold buf. rewrite map_seq_length, Hv, Nat.pow_succ_r', (Nat.mul_comm 2), Nat.div_mul; lia. }
-  rewrite (fft_internal_eta s buf true). cbv iota beta. cbn [fst]. rewrite Hb. apply reach_upd, Hr.
+  rewrite (fft_internal_eta _ buf true). cbv iota beta. cbn [fst]. rewrite Hb, Hv. apply reach_upd, reach_upd, Hr.
+Qed.
+
+Lemma update_n_id (s : st) n : n <= length (R s) -> update_n ops tw s n = s.
+Proof. intros H. unfold update_n. apply Nat.leb_le in H. now rewrite H. Qed.
+
+Lemma fft_size_self len m : fft_size len (2 ^ m) = 2 ^ m.
+Proof.
+  unfold fft_size. destruct (2 ^ m =? 0) eqn:E; [|reflexivity]. apply Nat.eqb_eq in E. pose proof (pow2_pos m). lia.
+Qed.
+
+Lemma cprod_length (fa fb : list C) : length (cprod ops fa fb) = Nat.min (length fa) (length fb).
+Proof. unfold cprod. now rewrite map_length, combine_length. Qed.
+
+(** the two forward transforms on one object, the inverse on ANY other reachable object: the same
+    coefficients as with all three calls on one object *)
+Lemma inv_prod_x_as_into (s s' : st) a b m res : reach ops tw s -> reach ops tw s' ->
+  snd (inv_prod_x ops tw s s' a b (2 ^ m) res) = snd (inv_prod_into ops tw s a b (2 ^ m) res).
+Proof.
+  intros Hr Hr'. unfold inv_prod_x, inv_prod_into.
+  assert (Hp : exists k, 2 ^ m = 2 ^ k) by now exists m.
+  pose proof (fft_into_reach s a (2 ^ m) (repeat czero (fft_size (length a) (2 ^ m))) Hr (or_intror Hp)) as Hr1.
+  pose proof (fft_length ops tw s a (2 ^ m)) as Hla.
+  change (fft_into ops tw s a (2 ^ m) (repeat czero (fft_size (length a) (2 ^ m)))) with (fft ops tw s a (2 ^ m)) in Hr1.
+  destruct (fft ops tw s a (2 ^ m)) as [s1 fa]. cbn [fst snd] in Hr1, Hla.
+  pose proof (fft_into_reach s1 b (2 ^ m) (repeat czero (fft_size (length b) (2 ^ m))) Hr1 (or_intror Hp)) as Hr2.
+  pose proof (fft_length ops tw s1 b (2 ^ m)) as Hlb.
+  change (fft_into ops tw s1 b (2 ^ m) (repeat czero (fft_size (length b) (2 ^ m)))) with (fft ops tw s1 b (2 ^ m)) in Hr2.
+  destruct (fft ops tw s1 b (2 ^ m)) as [s2 fb]. cbn [fst snd] in Hr2, Hlb.
+  rewrite fft_size_self in Hla, Hlb.
+  destruct (fft_inv_into ops tw s' (cprod ops fa fb) res) as [s3 r] eqn:Ei. cbn [snd].
+  change r with (snd (s3, r)). rewrite <- Ei.
+  apply (fft_inv_into_indep s' s2 m); try assumption. rewrite cprod_length. lia.
 Qed.
 End Hist.
 
@@ -281,18 +345,14 @@ Lemma history_independent_all : forall (F : Type) (ops : Ops F) (tw : nat -> nat
   (forall a b res, snd (multiply_into ops tw s a b res) = snd (multiply_into ops tw s' a b res)) /\
   (forall v n dest, (n = 0 \/ exists m, n = 2 ^ m) ->
      snd (fft_into ops tw s v n dest) = snd (fft_into ops tw s' v n dest)) /\
-  (forall (v : list (F * F)) m dest, length v = 2 ^ m -> length v <= length (R s) -> length v <= length (R s') ->
+  (forall (v : list (F * F)) m dest, length v = 2 ^ m ->
      snd (fft_inv_into ops tw s v dest) = snd (fft_inv_into ops tw s' v dest)).
 Proof.
   intros F ops tw s s' Hr Hr'. repeat split.
   - intros. now apply multiply_indep.
   - intros. now apply multiply_into_indep.
   - intros. now apply fft_into_indep.
-  - intros v m dest Hv Hs Hs'.
-    destruct (reach_good ops tw s Hr) as (K & H2 & Hg). destruct (reach_good ops tw s' Hr') as (K' & H2' & Hg').
-    rewrite (good_len_R ops tw _ _ Hg), Hv in Hs. rewrite (good_len_R ops tw _ _ Hg'), Hv in Hs'.
-    apply pow2_le_inv in Hs. apply pow2_le_inv in Hs'.
-    now apply (fft_inv_into_indep ops tw K K' s s' m).
+  - intros v m dest Hv. now apply (fft_inv_into_indep ops tw s s' m).
 Qed.
 
 Lemma reach_closed_all : forall (F : Type) (ops : Ops F) (tw : nat -> nat -> F * F) (s : st (F := F)),
